@@ -48,8 +48,13 @@ def seg(rng, cls, ivals, fvals):
         if k == "N": return "WN,%d" % rng.randint(-9, 99)          # a type without a Show instance (generic fallback text)
         return "W%s,%s" % (k, str(rng.choice(ivals)) if k == "I" else ("%016x" % rng.choice(fvals)) if k == "F" else h(rng.choice(STRS)))
     if cls == "showc":
-        k = rng.choice("ALTUDX")
+        k = rng.choice("ALTUDXR")
         n = rng.choice([0, 1, 3]) * (2 if k == "T" else 1)
+        if k == "R":          # a Range: its values are 64-bit Ints (starts beyond 32 bits as well), ascending or descending
+            st = rng.choice([0, -3, 2**31 - 2, -2**31 - 3, 2**32, 2**40 + 5, -2**45])
+            step = rng.choice([1, 1, 2, 7, -1, -3])
+            cnt = rng.choice([0, 1, 4])
+            return "WR,%d,%d,%d" % (st, st + step * cnt, step)
         if k == "T":          # keys include ones whose home is the last slot of a 5-, 11-, 23- or 53-slot table, and colliding ones
             n = rng.choice([0, 1, 3, 4, 6])
             ks = rng.sample([4, 9, 10, 21, 22, 52, 0, 5, 11, 44, 45, 105, -1] + [rng.randint(-9, 99) for _ in range(4)], n)
@@ -167,6 +172,10 @@ def round_execs(rng, quick):
             seps = [b"%%", b"%% ", b", ", b"|"] + ([b"x", b"x "] if not spec.endswith("i") else [])      # (%i itself reads a 0x prefix: no x after it)
             spec += "|" + h(rng.choice(seps))
         lines.append("ps %s %d %s I %d %s" % (rng.choice("SF"), rng.choice([0, 2]), spec, n, " ".join(str(v) for v in rng_in(lo, hi, n))))
+    # always: a shown 0 directly followed by a separator that starts like a base prefix (x480, X1F)
+    for spec in ("$", "lld", "d", "ld", "u"):                              # (not the %i family: it reads a base prefix itself)
+        for sep in (b"x", b"X", b"x1", b"b"):
+            lines.append("ps %s %d %s|%s I 3 0 %d 0" % (rng.choice("SF"), rng.choice([0, 2]), spec, h(sep), rng.choice([480, 7, 15])))
     for _ in range(60 if quick else 600):
         n = rng.randint(1, 5)
         lines.append("ps %s %d %s F %d %s" % (rng.choice("SF"), rng.choice([0, 2]), rng.choice(["lf", "le", "lg", "$", "f", "e", "g", "Lf", "Le", "Lg"]) + (("|" + h(rng.choice([b"%% ", b", ", b"|"]))) if rng.random() < 0.3 else ""), n, " ".join("%016x" % rng.choice(fv) for _ in range(n))))
